@@ -32,6 +32,7 @@ void splinetable<Alloc>::permuteDimensions(const std::vector<size_t>& permutatio
 	std::unique_ptr<uint64_t[]> t_strides(new uint64_t[ndim]);
 	std::unique_ptr<uint64_t[]> t_nknots(new uint64_t[ndim]);
 	std::unique_ptr<double_ptr[]> t_knots(new double_ptr[ndim]);
+	std::unique_ptr<double[]> t_periods(periods ? new double[ndim] : nullptr); //periods may be absent
 	std::unique_ptr<double*[],void(*)(double**)> t_extents(new double*[ndim],
 		[](double** p){
 			if(p && p[0])
@@ -53,6 +54,8 @@ void splinetable<Alloc>::permuteDimensions(const std::vector<size_t>& permutatio
 		t_knots[i] = knots[j];
 		t_extents[i][0] = extents[j][0];
 		t_extents[i][1] = extents[j][1];
+		if(periods)
+			t_periods[i] = periods[j];
 	}
 	
 	// Compute new strides
@@ -81,6 +84,8 @@ void splinetable<Alloc>::permuteDimensions(const std::vector<size_t>& permutatio
 		extents[i][0]=t_extents[i][0];
 		extents[i][1]=t_extents[i][1];
 	}
+	if(periods)
+		std::copy(t_periods.get(),t_periods.get()+ndim,periods);
 	std::copy(t_coefficients.get(),t_coefficients.get()+ncoeffs,coefficients);
 }
 	
